@@ -225,7 +225,7 @@ func keys[V any](m map[string]V) []string {
 
 // ---- option decoding (for messages and for the wire generator) --------------------------------------
 
-// optionNumbers lists the field numbers present in an options message (known or unknown alike).
+// optionFields lists the raw fields of an options message by number (known extensions and unknown fields alike).
 func optionFields(opts proto.Message) map[protowire.Number][]byte {
 	out := map[protowire.Number][]byte{}
 	if opts == nil || !opts.ProtoReflect().IsValid() {
@@ -482,10 +482,6 @@ func checkGRPC(it descItem, classes []string) (error, bool, []string) {
 		return pbt.Failf("C20/desc-grpc", "%s: gRPC service descriptor present in api=%v gogoproto=%v", it.Name, p.API != nil, p.Gogo != nil), false, classes
 	}
 	u := loadUniverse()
-	list := func(d interface { /* grpc.ServiceDesc */
-	}) {
-	}
-	_ = list
 	am, gm := []string{}, []string{}
 	for _, m := range p.API.Methods {
 		am = append(am, m.MethodName)
